@@ -981,13 +981,28 @@ func (ch *Chain) CancelWithRcode(rcode int, do bool) {
 		}
 	}
 	m := new(dns.Msg)
-	m.Extra = req.Extra
 	m.SetRcode(req, rcode)
 	m.RecursionAvailable = true
 	m.RecursionDesired = true
 
-	if opt := m.IsEdns0(); opt != nil {
-		opt.SetDo(do)
+	// The additional section is built from what the client negotiated, not
+	// copied from the request. Callers sit on both sides of edns: ahead of it
+	// (ratelimit's BADCOOKIE, reflex's REFUSED) the request's OPT still holds
+	// everything the client sent — its subnet, keepalive, padding, unknown
+	// codes — and behind it (recovery after a panic) SetEdns0 has rewritten it
+	// for the upstream query, appending an OPT for a client that sent none.
+	// A rejection answers with one OPT if the client sent one, carrying of its
+	// options only the COOKIE (which the caller may have completed with the
+	// server's half).
+	if opt := req.IsEdns0(); opt != nil && ch.Request.clientSentOPT() {
+		ro := &dns.OPT{Hdr: opt.Hdr}
+		for _, option := range opt.Option {
+			if cookie, ok := option.(*dns.EDNS0_COOKIE); ok {
+				ro.Option = append(ro.Option, cookie)
+			}
+		}
+		ro.SetDo(do)
+		m.Extra = []dns.RR{ro}
 	}
 
 	_ = ch.Writer.WriteMsg(m)
